@@ -162,7 +162,16 @@ func stdoutKinds(thorough bool) []soKind {
 		{Name: "empty", Label: soUndecodable, Text: constText("")},
 		{Name: "json-array", Label: soUndecodable, Text: constText("[1,2]")},
 		{Name: "member-wrong-type", Label: soUndecodable, Text: func(c string) string { return wrongTypeReply[c] }},
-		{Name: "valid-then-garbage", Label: soUndecodable, Demoted: true, Text: func(c string) string { return honest(c) + "}xyz" }},
+		// class "bytes after a complete, valid reply": stdout as a whole is then NOT a JSON text (RFC 8259: one value,
+		// optionally surrounded by white space), i.e. a member of the quantifier's "non-JSON" stdout - whatever a
+		// decoder that stops after the first value would make of its prefix
+		{Name: "valid-then-garbage", Label: soUndecodable, Text: func(c string) string { return honest(c) + "}xyz" }},
+		{Name: "valid-then-text-line", Label: soUndecodable, Text: func(c string) string { return honest(c) + "\nWARNING: token expires soon\n" }},
+		{Name: "valid-then-second-document", Label: soUndecodable, Text: func(c string) string { return honest(c) + honestReplyB[c] }},
+		{Name: "valid-then-same-document-again", Label: soUndecodable, Thorough: true, Text: func(c string) string { return honest(c) + "\n" + honest(c) + "\n" }},
+		{Name: "valid-then-closing-bracket", Label: soUndecodable, Thorough: true, Text: func(c string) string { return honest(c) + " ]" }},
+		{Name: "valid-then-comma", Label: soUndecodable, Thorough: true, Text: func(c string) string { return honest(c) + "," }},
+		{Name: "valid-then-nul-byte", Label: soUndecodable, Thorough: true, Text: func(c string) string { return honest(c) + "\x00" }},
 		{Name: "truncated", Label: soUndecodable, Thorough: true, Text: func(c string) string { h := honest(c); return h[:len(h)-1] }},
 		{Name: "json-string", Label: soUndecodable, Thorough: true, Text: constText(`"ok"`)},
 		{Name: "valid-b", Label: soHonest, PairOnly: true, Text: func(c string) string { return honestReplyB[c] }},
@@ -294,8 +303,16 @@ func stderrKinds(thorough bool) []seKind {
 		seKind{Name: "err-code-only", Label: seLenient, Code: "ERROR", Thorough: true, Text: `{"errorCode":"ERROR"}`},
 		seKind{Name: "err-message-only", Label: seLenient, Code: "", Thorough: true, Text: `{"errorMessage":"only a message"}`},
 		seKind{Name: "empty-object", Label: seUnstructured, Text: `{}`},
-		seKind{Name: "null", Label: seUnstructured, Thorough: true, Text: `null`},
+		// class "stderr is valid JSON but no structured error" (no errorCode, no errorMessage): the plugin printed no
+		// structured error, so the statement's "otherwise" applies
+		seKind{Name: "null", Label: seUnstructured, Text: `null`},
+		seKind{Name: "null-in-whitespace", Label: seUnstructured, Text: " null\n"},
+		seKind{Name: "object-without-error-members", Label: seUnstructured, Text: `{"unrelated":"member"}`},
 		seKind{Name: "json-array", Label: seUnstructured, Thorough: true, Text: `["x"]`},
+		seKind{Name: "json-empty-array", Label: seUnstructured, Thorough: true, Text: `[]`},
+		seKind{Name: "json-string", Label: seUnstructured, Thorough: true, Text: `"something failed"`},
+		seKind{Name: "json-number", Label: seUnstructured, Thorough: true, Text: `42`},
+		seKind{Name: "json-true", Label: seUnstructured, Thorough: true, Text: `true`},
 		seKind{Name: "non-json", Label: seUnstructured, Text: "panic: something went wrong\n"},
 		seKind{Name: "oversize-blanks", Label: seHuge, Pad: true},
 		seKind{Name: "err-plus-oversize-blanks", Label: seHuge, Code: "ERROR", Pad: true, Text: `{"errorCode":"ERROR","errorMessage":"scripted failure"}`},
